@@ -28,7 +28,12 @@ META = {
             "checkBlockHeader, PopData destroyed right after the call, validator stopped/restarted) under ASan+UBSan and "
             "TSan builds of the library: verdict vs sequential checking vs the extracted model, and the observed "
             "(worker, payload) execution trace is replayed on the model (round-robin home queue, steal from the next "
-            "worker only, FIFO).",
+            "worker only, FIFO). The validator model abstracts each worker queue as a bounded FIFO list; "
+            "C16_ring_refines_fifo_partial proves that the Vyukov ring buffer as coded (sequence-numbered cells, positions, "
+            "index = pos mod size) answers every push/pop sequence exactly like that bounded FIFO across any number of "
+            "wrap-arounds (sequential executions only), the ring model is compared with the real MPMCBoundedQueue "
+            "template on fill/drain sequences, and long-lived validators with small configured limits (queue capacity "
+            "4..16, >= 5 wrap-arounds per worker) are run like every other case.",
     "note": "Honest limit: the theorems cover the scheduling logic of the model for all schedules; data-race freedom and "
             "memory safety of the compiled C++ (thread pool, MPMC queue, futures) are observed by sanitizers, not proved. "
             "VTB payloads are not generated (context VbkBlocks and ATVs are). VbkBlocks carry precalculated hashes in "
@@ -42,8 +47,11 @@ META = {
 
 
 def case_line(c):
-    return "%s check %d %d %d %s %d %d %d %d" % (c["id"], c["w"], c["seed"], c["delay"], c["spec"] or "-",
-                                                 c["dup"], c["stop"], c["rounds"], c.get("realhash", 0))
+    if c.get("raw"):
+        return "%s %s" % (c["id"], c["raw"])
+    return "%s check %d %d %d %s %d %d %d %d %s" % (c["id"], c["w"], c["seed"], c["delay"], c["spec"] or "-",
+                                                    c["dup"], c["stop"], c["rounds"], c.get("realhash", 0),
+                                                    c.get("limits", "0"))
 
 
 def mk_spec(r, nctx, natv, bad_pos):
@@ -86,6 +94,38 @@ def gen_cases(ctx, tier):
     for w in range(1, 17):
         n = 10 if tier == "quick" else 30
         add(w, 800, "b" + "a" * n, tag="first-invalid-tail")
+    # long-lived validator with small configured limits: the per-worker ring buffers (capacity 4..16) wrap
+    # at least 5 times; an assert/abort ("Worker queue is full") or a wrong verdict is a violation
+    lims = {4: ("2/1/1", 2, 1), 8: ("4/2/2", 4, 2), 16: ("8/4/4", 8, 4)}
+    plan = [(1, 4, 3), (2, 4, 0), (3, 8, 0), (4, 4, 0)] if tier == "quick" else \
+           [(w, c, st) for w in (1, 2, 3, 4) for c in (4, 8, 16) for st in (0, 3)]
+    for (w, cap, st) in plan:
+        lim, la, lb = lims[cap]
+        nctx = r.range(0, lb)
+        natv = r.range(1, la) if nctx == 0 else r.range(0, la)
+        n = nctx + natv
+        bad = set() if r.chance(2, 3) else {r.below(n)}
+        rounds = (6 * w * cap + n - 1) // n + 1
+        cases.append({"id": "k%d" % (len(cases) + 1), "w": w, "seed": r.below(1 << 30), "delay": r.choice([0, 0, 30]),
+                      "spec": mk_spec(r, nctx, natv, bad), "dup": 0, "stop": st, "rounds": rounds, "realhash": 0,
+                      "limits": lim, "tag": "long-lived-cap%d" % cap})
+    # the real MPMCBoundedQueue template against the ring model (proved to refine a bounded FIFO): fill/drain phases
+    # crossing many wrap-arounds
+    for size in ((2, 4, 8) if tier == "quick" else (2, 4, 8, 16, 64)):
+        for rep in range(2 if tier == "quick" else 10):
+            ops = []
+            val = 0
+            bias = 3
+            for i in range(40 * size if size <= 8 else 12 * size):
+                if i % (3 * size) == 0:
+                    bias = r.choice([1, 2, 3, 4])            # of 5: probability of a push in this phase
+                if r.below(5) < bias:
+                    val += 1
+                    ops.append("u%d" % val)
+                else:
+                    ops.append("o")
+            cases.append({"id": "k%d" % (len(cases) + 1), "raw": "ring %d %s" % (size, " ".join(ops)), "w": 0,
+                          "seed": 0, "delay": 0, "spec": "", "dup": 0, "stop": 0, "rounds": 0, "tag": "ring%d" % size})
     add(2, 300, "", tag="empty")
     add(4, 300, "x" + "v" * 8 + "a" * 8, tag="ctx-first-invalid")
     add(3, 300, "v" * 6 + "a" * 6, dup=1, rounds=2, stop=1, tag="dup")
@@ -105,7 +145,7 @@ def rel_cases(ctx, tier):
 def build_schedule(case, traces):
     """turn the observed per-round (worker, payload) events into a model schedule; None if not applicable"""
     spec = case["spec"]
-    if case["dup"] or not spec or any(ch in "vxV" for ch in spec):
+    if case["dup"] or not spec or case["stop"] == 3 or any(ch in "vxV" for ch in spec):
         return None
     n = len(spec)
     w = case["w"]
@@ -256,7 +296,7 @@ def run(ctx):
             if i not in res:
                 continue
             total += 1
-            seen.add((c["w"], c["spec"], c["dup"], c["stop"], c["rounds"], c["delay"]))
+            seen.add((c["w"], c["spec"], c["dup"], c["stop"], c["rounds"], c["delay"], c.get("limits"), c.get("raw")))
             for k, v in (("workers", c["w"]), ("pattern", c.get("tag", "")), ("delay", c["delay"]), ("stop", c["stop"]),
                          ("n", len(c["spec"]))):
                 hist[k][str(v)] = hist[k].get(str(v), 0) + 1
@@ -302,7 +342,8 @@ def run(ctx):
     ctx.cov["verdicts_agreeing"] = agreed
     ctx.cov["distribution"] = hist
     ctx.cov["sanitizer_variants"] = [v for v, _ in plan]
-    ctx.cov["partial_theorems"] = ["C16_no_deadlock_partial (enabledness only, no termination measure)"]
+    ctx.cov["partial_theorems"] = ["C16_ring_refines_fifo_partial (one push/pop at a time; concurrent CAS interleavings "
+                                    "and 2^64 position wrap not modelled)", "C16_no_deadlock_partial (enabledness only, no termination measure)"]
     ctx.cov["refuted_theorems"] = ["C16_released_on_return_v0_refuted (old code, repaired by /repo 9e8bd1f5)"]
     ctx.cov["trusted_base"] = [
         "modelled, not verified: MPMC bounded queue, std::future/packaged_task, std::thread (linearizable FIFO / one-shot "
